@@ -80,7 +80,14 @@ func scanSpecDirs(dirs []string, scanFn scanSpecFunc) error {
 				if errors.Is(err, fs.ErrNotExist) {
 					return nil
 				}
-				return err
+				// Report what can't be examined, but don't let it
+				// hide the rest of the Spec files and directories.
+				if path != dir {
+					if ext := filepath.Ext(path); ext != ".json" && ext != ".yaml" {
+						return nil
+					}
+				}
+				return scanFn(path, priority, nil, err)
 			}
 			// first call from Walk is for dir itself, others we skip
 			if info.IsDir() {
